@@ -229,6 +229,9 @@ impl<F: Future> Stream for FuturesUnordered<F> {
             match poll {
                 Poll::Ready(Some(x)) => {
                     *rem -= 1;
+                    // move on, so that a group that always has a future ready
+                    // cannot starve the groups behind it
+                    *poll_next += 1;
                     return Poll::Ready(Some(x));
                 }
                 Poll::Ready(None) => {
@@ -253,6 +256,11 @@ impl<F: Future> Stream for FuturesUnordered<F> {
                     *poll_next += 1;
                 }
             }
+        }
+        // The retained (largest) group may have been visited before the other groups turned
+        // out to be exhausted; then nothing is left and no group has registered the waker.
+        if *rem == 0 {
+            return Poll::Ready(None);
         }
         Poll::Pending
     }
